@@ -9,7 +9,9 @@ from C07 import sorted_stream
 ID = 'C08'
 RULE = ('bg cases: sorted streams of NON-EMPTY BedGraph<i64> records over 1-3 chromosomes with values in -3..3 (zero, '
         'cancelling sums), identical / nested / partially overlapping / book-ended records, several records starting or '
-        'ending at one position; the output sequence is compared; non-trivial = mixed signs starting at one position or a '
+        'ending at one position, plus a few connected runs of 1000-4200 records followed by a book-ended record carrying the '
+        'level left of the touching point; the output sequence is compared (collected, and re-walked by next-then-fold / '
+        'for_each / nth / skip / step_by / count / last); non-trivial = mixed signs starting at one position or a '
         'stretch whose values cancel; distinct by case text')
 UNIQUE_NOTE = 'bedgraph_spec + bgrle_unique: the run-length encoding of the pointwise sum is unique'
 EXHAUSTIVE = {}
@@ -29,6 +31,28 @@ def gen(rng, tier):
                 if i != j and regs[i][0] == regs[j][0] and regs[i][1] == regs[j][1] and vals[i] * vals[j] < 0:
                     nt = True
         yield Case(sx.dump(['bg', ['recs'] + [[R.h(c), s, e, v] for (c, s, e), v in zip(regs, vals)]]), nt, mode)
+    # clusters far larger than any internal batch / flush threshold a rewrite might introduce (1023 .. 4100 records in
+    # one connected run), followed by a book-ended record whose value equals the level just left of the touching point
+    # (so a maximal encoding must continue the run) and by a second cluster
+    for k in range(8 if tier == 'quick' else 60):
+        N = rng.choice([1023, 1024, 1025, 1030, 2047, 2048, 2049, 4096, 4100, rng.randint(1000, 4200)])
+        shape = rng.choice(['same', 'stair', 'random'])
+        c = rng.choice([b'chr1', b'chr2'])
+        if shape == 'same':
+            recs = [(c, 0, 10, 1)] * N
+        elif shape == 'stair':
+            recs = [(c, i // 7, i // 7 + 3 + (i % 3), rng.choice([1, 1, -1, 2])) for i in range(N)]
+        else:
+            recs = [(c, rng.randint(0, 40), 0, rng.choice([1, 2, -1, 3])) for _ in range(N)]
+            recs = [(c, s, s + rng.randint(1, 30), v) for (c, s, _e, v) in recs]
+        recs.sort(key=lambda r: (r[0], r[1], r[2]))
+        end = max(r[2] for r in recs)
+        level = sum(r[3] for r in recs if r[1] <= end - 1 < r[2])
+        tail = [(c, end, end + 10, level if k % 4 != 3 else level + 1), (c, end + 10, end + 12, level), (c, end + 30, end + 31, 5)]
+        if k % 2 == 0:
+            tail.append((b'chr3', 0, 4, 1))
+        allr = recs + tail
+        yield Case(sx.dump(['bg', ['recs'] + [[R.h(ch), s_, e_, v] for (ch, s_, e_, v) in allr]]), True, 'big-cluster')
     if tier == 'thorough':
         import itertools
         c = b'chr1'
